@@ -45,6 +45,7 @@
 #include "extensions/qconfig.h"
 
 #define _INCLUDE_DIRECTIVE  "@INCLUDE "
+#define _MAX_INCLUDES       (128)  /*!< files include themselves beyond this */
 
 #ifndef _DOXYGEN_SKIP
 #define _VAR        '$'
@@ -131,10 +132,18 @@ qlisttbl_t *qconfig_parse_file(qlisttbl_t *tbl, const char *filepath,
 
     // process include directive
     char *strp = str;
+    int numincludes = 0;
 
     while ((strp = strstr(strp, _INCLUDE_DIRECTIVE)) != NULL) {
         if (strp == str || strp[-1] == '\n') {
             char buf[PATH_MAX];
+
+            // files that include themselves or each other never end
+            if (++numincludes > _MAX_INCLUDES) {
+                DEBUG("Too many %s directives.", _INCLUDE_DIRECTIVE);
+                free(str);
+                return NULL;
+            }
 
             // parse filename
             char *tmpp;
